@@ -27,6 +27,7 @@ from the source on every run.
 -/
 import Nitime.Model.Num
 import Nitime.Generated.SpecIdx
+import Nitime.Generated.SpecWrites
 
 namespace Nitime.C04
 open Nitime.Num
@@ -218,7 +219,144 @@ def welchPsdList (tw : Nat → K) (Fs : R) (n N noverlap : Nat) (onesided : Bool
     (welchCsdOf Fs n N noverlap onesided win
       (memoGet2 X (segSpec tw N n noverlap win x)) (memoGet2 X (segSpec tw N n noverlap win x)))
 
+/-! ### session 3: option handling, the precomputed-transform branch, typed input, call histories -/
+
+/-- how `periodogram`, `periodogram_csd`, `multi_taper_psd/csd` resolve `sides`:
+`(sides == 'default' and iscomplexobj(s)) or sides == 'twosided'` ⇒ two-sided;
+`sides in ('default', 'onesided')` ⇒ one-sided; any other string falls through to the two-sided branch -/
+def onesidedOf (sides : String) (cplx : Bool) : Bool :=
+  if (sides == "default" && cplx) || sides == "twosided" then false
+  else sides == "default" || sides == "onesided"
+
+/-- `periodogram(…, normalize=False)`: the assembled `P` before `P /= Fs * s.shape[-1]` -/
+def periodogramRaw (N : Nat) (onesided : Bool) (S : Nat → K) (k : Nat) : R :=
+  if onesided then pgOne N S k else sqmag (S k)
+
+/-- `periodogram(s, Fs, Sk=Sk, sides=…, normalize=…)`: the caller supplies the transform; `N = Sk.shape[-1]`;
+`s` is consulted only for `n = s.shape[-1]` (normalisation) and for `iscomplexobj(s)` (through `onesided`) -/
+def periodogramSk (Fs : R) (n N : Nat) (onesided norm : Bool) (Sk : Nat → K) (k : Nat) : R :=
+  if norm then periodogramOf Fs n N onesided Sk k else periodogramRaw N onesided Sk k
+
+def periodogramSkList (Fs : R) (n N : Nat) (onesided norm : Bool) (Sk : Nat → K) : List R :=
+  (List.range (outLen N onesided)).map (periodogramSk Fs n N onesided norm Sk)
+
+/-- `periodogram_csd(…, normalize=False)` -/
+def periodogramCsdRaw (N : Nat) (onesided : Bool) (S : Nat → Nat → K) (i j k : Nat) : K :=
+  completeHermitian (lowerPairs fun i j k => csdPair onesided N (S i) (S j) k) i j k
+
+/-- `periodogram_csd(s, Fs, Sk=Sk, sides=…, normalize=…)`: `Sk_loc = Sk.reshape(M, N)` is a VIEW of the caller's
+array; `M` and `N` come from `Sk`, `n` and the complexity test from `s` -/
+def periodogramCsdSk (Fs : R) (n N : Nat) (onesided norm : Bool) (Sk : Nat → Nat → K) (i j k : Nat) : K :=
+  if norm then periodogramCsdOf Fs n N onesided Sk i j k else periodogramCsdRaw N onesided Sk i j k
+
+def csdOutLen (N : Nat) (onesided : Bool) : Nat := if onesided then Generated.SpecIdx.periodogram_csd_Fn N else N
+
+def periodogramCsdSkList (Fs : R) (n N M : Nat) (onesided norm : Bool) (Sk : Nat → Nat → K) : List K :=
+  matList M (csdOutLen N onesided) (periodogramCsdSk Fs n N onesided norm Sk)
+
+/-- `periodogram(s, Fs, N=N, sides, normalize)` with the transform computed inside (tabulated once) -/
+def periodogramNormList (tw : Nat → K) (Fs : R) (n N : Nat) (onesided norm : Bool) (x : Nat → K) : List R :=
+  let S := memoArr N (spec tw N n x)
+  periodogramSkList Fs n N onesided norm (memoGet S (spec tw N n x))
+
+def periodogramCsdNormList (tw : Nat → K) (Fs : R) (n N M : Nat) (onesided norm : Bool)
+    (x : Nat → Nat → K) : List K :=
+  let S := memoArr2 M N fun i => spec tw N n (x i)
+  periodogramCsdSkList Fs n N M onesided norm (memoGet2 S fun i => spec tw N n (x i))
+
+/-! #### typed input: integer recordings are embedded exactly before the estimator runs
+(`fftpack.fft`, `remove_bias`, `mlab` convert int16/int32/int64/uint8 to binary64, which is exact; float32 is a
+subset of binary64, its embedding is the inclusion) -/
+
+/-- exact embedding of an integer sample -/
+def ofInt (z : Int) : R := if z < 0 then -(ofNat z.natAbs) else ofNat z.natAbs
+
+def embedInt (z : Int) : K := ofReal (ofInt z)
+
+/-- an estimator applied to typed samples = the estimator applied to their embedding -/
+def typed {α β : Type} (embed : α → K) (est : (Nat → K) → β) (x : Nat → α) : β := est fun j => embed (x j)
+
+/-! #### histories of calls on ONE caller-supplied transform -/
+
+/-- one use of the caller's `Sk` (`M` rows of length `N`): `periodogram(s, Sk=Sk)`, `periodogram(s[r], Sk=Sk[r])`,
+`periodogram_csd(s, Sk=Sk)`, each with its `sides` / `normalize` -/
+inductive SkCall where
+  | pg (sides : String) (norm : Bool)
+  | pgRow (sides : String) (norm : Bool) (row : Nat)
+  | csd (sides : String) (norm : Bool)
+  deriving Repr, DecidableEq
+
+def SkCall.fn : SkCall → String
+  | .pg .. => "periodogram"
+  | .pgRow .. => "periodogram"
+  | .csd .. => "periodogram_csd"
+
+/-- what the call returns (real densities as complex numbers with zero imaginary part) -/
+def skOut (Fs : R) (n N M : Nat) (cplx : Bool) (Sk : Nat → Nat → K) : SkCall → List K
+  | .pg sides norm =>
+    (List.range M).flatMap fun i => (periodogramSkList Fs n N (onesidedOf sides cplx) norm (Sk i)).map ofReal
+  | .pgRow sides norm r => (periodogramSkList Fs n N (onesidedOf sides cplx) norm (Sk r)).map ofReal
+  | .csd sides norm => periodogramCsdSkList Fs n N M (onesidedOf sides cplx) norm Sk
+
+/-- the caller's buffer after the call: untouched unless the GENERATED write-set of the function (regenerated from the
+source on every run, `Generated/SpecWrites.lean`) contains a name that may be a view of the `Sk` parameter — then
+nothing is known about it (modelled as zeros) -/
+def skAfter (c : SkCall) (Sk : Nat → Nat → K) : Nat → Nat → K :=
+  if Generated.SpecWrites.writesAlias c.fn "Sk" then fun _ _ => CScalar.zero else Sk
+
+/-- the outputs of a program `f₁(Sk); f₂(Sk); …` on one buffer -/
+def skRun (Fs : R) (n N M : Nat) (cplx : Bool) : (Nat → Nat → K) → List SkCall → List (List K)
+  | _, [] => []
+  | Sk, c :: h => skOut Fs n N M cplx Sk c :: skRun Fs n N M cplx (skAfter c Sk) h
+
 end generic
+
+/-! ### a taper provider along a history of requests (`utils.dpss_windows`)
+
+Today's `dpss_windows` is stateless: every request is computed from its arguments (`specTapers`).  `memoRun` is the
+class of implementations that keep a memo keyed by `keyOf request`; `Props/C04.lean` proves that such a provider
+answers every history like recomputation iff the key determines the result (`memoRun_eq_map`), and that a key which
+forgets `interp_from` does not (`memo_forgets_interp_counterexample`).  The harness runs request histories through the
+real `dpss_windows` and compares the kind of every answer (exact / interpolated tapers, judged against an independent
+DPSS implementation) with this model. -/
+
+structure TReq where
+  N : Nat
+  /-- `4·NW` (the harness uses quarter-integer NW) -/
+  nw4 : Nat
+  kmax : Nat
+  /-- `interp_from`, 0 = `None` -/
+  interp : Nat
+  /-- `interp_kind` code: 0 linear, 1 nearest, 2 zero, 3 cubic… -/
+  kind : Nat
+  deriving Repr, DecidableEq
+
+/-- kind of the answer: `false` = the exactly computed set, `true` = tapers interpolated from a shorter set -/
+def TReq.interpolated (r : TReq) : Bool := r.interp != 0
+
+def specTapers {ρ τ : Type} (compute : ρ → τ) (h : List ρ) : List τ := h.map compute
+
+def mlook {κ τ : Type} [DecidableEq κ] (k : κ) : List (κ × τ) → Option τ
+  | [] => none
+  | (k', v) :: m => if k' = k then some v else mlook k m
+
+/-- lookup first; on a miss compute, evict (any policy `evict`), store -/
+def memoStep {ρ κ τ : Type} [DecidableEq κ] (compute : ρ → τ) (keyOf : ρ → κ)
+    (evict : List (κ × τ) → List (κ × τ)) (memo : List (κ × τ)) (r : ρ) : τ × List (κ × τ) :=
+  match mlook (keyOf r) memo with
+  | some v => (v, memo)
+  | none => (compute r, (keyOf r, compute r) :: evict memo)
+
+def memoRun {ρ κ τ : Type} [DecidableEq κ] (compute : ρ → τ) (keyOf : ρ → κ)
+    (evict : List (κ × τ) → List (κ × τ)) : List (κ × τ) → List ρ → List τ
+  | _, [] => []
+  | memo, r :: h => (memoStep compute keyOf evict memo r).1 :: memoRun compute keyOf evict (memoStep compute keyOf evict memo r).2 h
+
+/-- keep the 16 most recent entries -/
+def evict16 {α : Type} (m : List α) : List α := m.take 15
+
+/-- the key of the seeded memo: `(N, NW, Kmax)` — it forgets `interp_from` / `interp_kind` -/
+def forgetfulKey (r : TReq) : Nat × Nat × Nat := (r.N, r.nw4, r.kmax)
 
 /-! ### line protocol (Float reading)
 
@@ -236,16 +374,43 @@ open Nitime.Proto
 
 def chan (a : Array C) (n : Nat) (i : Nat) (j : Nat) : C := if j < n then cfn a (i * n + j) else ⟨0.0, 0.0⟩
 
+/-- a signal argument: interleaved complex binary64 (`x…,x…`), or — typed input — decimal integers `i1,-2,3`
+(int16/int32/int64/uint8 recordings), embedded exactly by `embedInt` -/
+def parseSig? (s : String) : Option (Array C) :=
+  if s.startsWith "i" then
+    (parseIntList? (s.drop 1).toString).map fun zs => (zs.map fun z => (embedInt z : C)).toArray
+  else parseCList? s
+
+def parseBool? (s : String) : Option Bool := if s == "1" then some true else if s == "0" then some false else none
+
+/-- `p:sides:norm`, `r:sides:norm:row`, `c:sides:norm` separated by `;` -/
+def parseSkCalls? (s : String) : Option (List SkCall) :=
+  (s.splitOn ";").mapM fun t =>
+    match t.splitOn ":" with
+    | ["p", sd, nm] => (parseBool? nm).map fun b => SkCall.pg sd b
+    | ["r", sd, nm, r] => match parseBool? nm, r.toNat? with
+      | some b, some r => some (SkCall.pgRow sd b r)
+      | _, _ => none
+    | ["c", sd, nm] => (parseBool? nm).map fun b => SkCall.csd sd b
+    | _ => none
+
+/-- `N:nw4:kmax:interp:kind` separated by `;` -/
+def parseTReqs? (s : String) : Option (List TReq) :=
+  (s.splitOn ";").mapM fun t =>
+    match (t.splitOn ":").mapM String.toNat? with
+    | some [a, b, c, d, e] => some ⟨a, b, c, d, e⟩
+    | _ => none
+
 def handle (args : List String) : String :=
   match args with
   | ["periodogram", fs, nfft, sides, xs] =>
-    match parseFloat? fs, nfft.toNat?, parseCList? xs with
+    match parseFloat? fs, nfft.toNat?, parseSig? xs with
     | some Fs, some N, some x =>
       let tw := twiddleFn N (twiddleTable N)
       "ok " ++ showFloatList (periodogramList tw Fs x.size N (sides == "1") (cfn x))
     | _, _, _ => "bad-op"
   | ["pcsd", fs, nfft, sides, m, xs] =>
-    match parseFloat? fs, nfft.toNat?, m.toNat?, parseCList? xs with
+    match parseFloat? fs, nfft.toNat?, m.toNat?, parseSig? xs with
     | some Fs, some N, some M, some x =>
       if M = 0 then "bad-op" else
       let n := x.size / M
@@ -253,7 +418,7 @@ def handle (args : List String) : String :=
       "ok " ++ showCList (periodogramCsdList tw Fs n N M (sides == "1") (chan x n))
     | _, _, _, _ => "bad-op"
   | ["mtpsd", fs, nfft, sides, t, taps, wmode, ws, xs] =>
-    match parseFloat? fs, nfft.toNat?, t.toNat?, parseFArray? taps, parseFArray? ws, parseCList? xs with
+    match parseFloat? fs, nfft.toNat?, t.toNat?, parseFArray? taps, parseFArray? ws, parseSig? xs with
     | some Fs, some N, some T, some h, some w, some x =>
       let n := x.size
       let one := sides == "1"
@@ -264,7 +429,7 @@ def handle (args : List String) : String :=
       "ok " ++ showFloatList (multiTaperPsdList tw Fs n N one T hf wf (cfn x))
     | _, _, _, _, _, _ => "bad-op"
   | ["mtcsd", fs, nfft, sides, m, t, taps, wmode, ws, xs] =>
-    match parseFloat? fs, nfft.toNat?, m.toNat?, t.toNat?, parseFArray? taps, parseFArray? ws, parseCList? xs with
+    match parseFloat? fs, nfft.toNat?, m.toNat?, t.toNat?, parseFArray? taps, parseFArray? ws, parseSig? xs with
     | some Fs, some N, some M, some T, some h, some w, some x =>
       if M = 0 then "bad-op" else
       let n := x.size / M
@@ -277,7 +442,7 @@ def handle (args : List String) : String :=
       "ok " ++ showCList (multiTaperCsdList tw Fs n N M one T hf wf (chan x n))
     | _, _, _, _, _, _, _ => "bad-op"
   | ["welch", fs, nfft, nov, sides, m, win, xs] =>
-    match parseFloat? fs, nfft.toNat?, nov.toNat?, m.toNat?, parseFArray? win, parseCList? xs with
+    match parseFloat? fs, nfft.toNat?, nov.toNat?, m.toNat?, parseFArray? win, parseSig? xs with
     | some Fs, some N, some nov, some M, some w, some x =>
       if M = 0 ∨ N = 0 ∨ nov ≥ N then "bad-op" else
       let n := x.size / M
@@ -317,6 +482,46 @@ def handle (args : List String) : String :=
         else "ok " ++ showQList (welchSpectraList tw Fs n N nov M one (rfn w) xc)
       | none => "bad-op"
     | _, _, _, _, _, _ => "bad-op"
+  -- session 3: normalize=False, precomputed transform, histories on one transform, taper-provider histories
+  | ["periodogramn", fs, nfft, sides, norm, xs] =>
+    match parseFloat? fs, nfft.toNat?, parseBool? norm, parseSig? xs with
+    | some Fs, some N, some nm, some x =>
+      let tw := twiddleFn N (twiddleTable N)
+      "ok " ++ showFloatList (periodogramNormList tw Fs x.size N (sides == "1") nm (cfn x))
+    | _, _, _, _ => "bad-op"
+  | ["pcsdn", fs, nfft, sides, norm, m, xs] =>
+    match parseFloat? fs, nfft.toNat?, parseBool? norm, m.toNat?, parseSig? xs with
+    | some Fs, some N, some nm, some M, some x =>
+      if M = 0 then "bad-op" else
+      let n := x.size / M
+      let tw := twiddleFn N (twiddleTable N)
+      "ok " ++ showCList (periodogramCsdNormList tw Fs n N M (sides == "1") nm (chan x n))
+    | _, _, _, _, _ => "bad-op"
+  | ["pgsk", fs, n, cplx, sides, norm, sk] =>
+    match parseFloat? fs, n.toNat?, parseBool? cplx, parseBool? norm, parseCList? sk with
+    | some Fs, some n, some cx, some nm, some S =>
+      "ok " ++ showFloatList (periodogramSkList Fs n S.size (onesidedOf sides cx) nm (cfn S))
+    | _, _, _, _, _ => "bad-op"
+  | ["pcsdsk", fs, n, cplx, sides, norm, m, sk] =>
+    match parseFloat? fs, n.toNat?, parseBool? cplx, parseBool? norm, m.toNat?, parseCList? sk with
+    | some Fs, some n, some cx, some nm, some M, some S =>
+      if M = 0 then "bad-op" else
+      let N := S.size / M
+      "ok " ++ showCList (periodogramCsdSkList Fs n N M (onesidedOf sides cx) nm (chan S N))
+    | _, _, _, _, _, _ => "bad-op"
+  | ["skhist", fs, n, cplx, m, sk, calls] =>
+    match parseFloat? fs, n.toNat?, parseBool? cplx, m.toNat?, parseCList? sk, parseSkCalls? calls with
+    | some Fs, some n, some cx, some M, some S, some h =>
+      if M = 0 then "bad-op" else
+      let N := S.size / M
+      "ok " ++ showCList (skRun Fs n N M cx (chan S N) h).flatten
+    | _, _, _, _, _, _ => "bad-op"
+  | ["tapers", reqs] =>
+    match parseTReqs? reqs with
+    | some h =>
+      -- a memo keyed by the WHOLE request (sound: `memoRun_eq_map`), evicting like the 16-entry cache
+      "ok " ++ showBoolList (memoRun TReq.interpolated id evict16 [] h)
+    | none => "bad-op"
   | _ => "bad-op"
 
 end Nitime.C04
